@@ -95,6 +95,8 @@ FILTERS = {
   "F18": fl(("prepend", ["html", "head", "title"], "none")),
   "F19": fl(("append", ["html", "body"], "none"), ("text_append", [], "none"), ("prepend", ["html", "head"], "none")),
   "F20": "<<>>",
+  "F21": fl(("append", ["html", "head", "title"], "none")),
+  "F22": fl(("replace", ["html", "head", "title"], "none"), ("append", ["html", "body"], "none")),
 }
 
 def main():
@@ -112,7 +114,7 @@ def main():
     out.append("DocsWell == {%s}" % ", ".join(n for n in DOCS if n.startswith("A")))
     out.append("DocsMessy == {%s}" % ", ".join(n for n in DOCS if n.startswith("B")))
     out.append("FiltersAll == {%s}" % ", ".join(FILTERS))
-    out.append("FiltersQuick == {F1, F2, F3, F4, F5, F6, F8, F10, F11, F12, F16, F18}")
+    out.append("FiltersQuick == {F1, F2, F3, F4, F5, F6, F8, F10, F11, F12, F16, F21}")
     out.append("DocsQuick == {A2, A3, A7, A9, A10, A11, B1, B2, B3, B4, B5, B11, B12, B14}")
     out.append("CasesQuick == Prod(DocsQuick, FiltersQuick)")
     out.append("CasesAll == Prod(DocsWell \\cup DocsMessy, FiltersAll)")
